@@ -8,5 +8,5 @@ rsync -a --exclude .git /repo/ "$T/repo/"
 (cd "$T/repo" && patch -p1 -s --no-backup-if-mismatch -i "$P")
 mkdir -p "$T/v"; cp /verif/known_findings.json "$T/v/" 2>/dev/null || true
 for prop in "$@"; do
-  /verif/bin/gonnxcheck -repo "$T/repo" -property "$prop" -tier quick -evidence "$T/ev.json" -verif "$T/v" | grep -E "^(violated|OK|UNDECIDED|KNOWN)" || true
+  /verif/bin/gonnxcheck -repo "$T/repo" -property "$prop" -tier quick -evidence "$T/ev.json" -verif "$T/v" | grep -E "^(violated|undischarged|OK|UNDECIDED|KNOWN)" || true
 done
